@@ -66,10 +66,16 @@ def write_tree(root, files):
                 f.write(content)
 
 
-def fresh_project(files, name="proj", config="", index_rows=None, pre_tree=None):
+def fresh_project(files, name="proj", config="", index_rows=None, pre_tree=None, symlink_out=False):
     root = os.path.join(scratch_root(), name)
     shutil.rmtree(root, ignore_errors=True)
     os.makedirs(root)
+    if symlink_out:
+        # cond-out is a symbolic link to scratch storage elsewhere (at another depth)
+        real = os.path.join(scratch_root(), name + "-realout")
+        shutil.rmtree(real, ignore_errors=True)
+        os.makedirs(os.path.join(real, "deeper", "out"))
+        os.symlink(os.path.join(real, "deeper", "out"), os.path.join(root, "cond-out"))
     if config is not None:
         with open(os.path.join(root, "cond_config.toml"), "w") as f:
             f.write(config)
